@@ -120,7 +120,41 @@ Ltac hc_step :=
   | H : false = has_comma ?q |- context [has_comma ?q] => rewrite <- H
   end.
 Ltac crunchA := repeat first [ hp_contra | hc_step | progress cbn | progress unfold convert, assign, trim_prefix | progress unfold equals
-                             | rewrite set_frag_S | rewrite set_frag_0 | atom_step | fm_step ].
+                             | rewrite set_frag_S | rewrite set_frag_0 | atom_step | fm_step
+                             | progress (unfold step at 1) ].
+
+Lemma kind_cases a :
+  (has_prefix [109; 61] a = true /\ has_prefix [116; 61] a = false /\ has_prefix [112; 61] a = false) \/
+  (has_prefix [109; 61] a = false /\ has_prefix [116; 61] a = true /\ has_prefix [112; 61] a = false) \/
+  (has_prefix [109; 61] a = false /\ has_prefix [116; 61] a = false /\ has_prefix [112; 61] a = true) \/
+  (has_prefix [109; 61] a = false /\ has_prefix [116; 61] a = false /\ has_prefix [112; 61] a = false).
+Proof.
+  destruct (has_prefix [109; 61] a) eqn:A; destruct (has_prefix [116; 61] a) eqn:B;
+    destruct (has_prefix [112; 61] a) eqn:C; auto 10;
+    exfalso; first [ apply (hp_excl 109 116 a); [lia|assumption|assumption]
+                   | apply (hp_excl 109 112 a); [lia|assumption|assumption]
+                   | apply (hp_excl 116 112 a); [lia|assumption|assumption] ].
+Qed.
+
+Lemma argon2_finish enc k sum :
+  class_of (match k with
+            | KErr e => VKey e
+            | KOk key => if ct_equal (enc key) sum then VMatch else VMismatch
+            end) = class_key enc k sum.
+Proof. destruct k as [key|e]; [|reflexivity]. unfold ct_equal, class_key. destruct (bytes_eqb (enc key) sum); reflexivity. Qed.
+
+Ltac split_group :=
+  match goal with
+  | H : map snd ?g = split_on comma [] ?q |- context [split_on comma [] ?q] =>
+    rewrite <- H; destruct g as [|[pa ta] [|[pb tb] [|[pc tc] [|vd g]]]]; cbn [map snd]; cbv iota beta
+  end.
+Ltac kinds :=
+  match goal with
+  | |- context [member_num ?a] =>
+    let A := fresh "K" in let B := fresh "K" in let C := fresh "K" in
+    destruct (kind_cases a) as [(A & B & C)|[(A & B & C)|[(A & B & C)|(A & B & C)]]];
+    rewrite (member_num_eq a); unfold member_num' at 1; rewrite A, ?B, ?C
+  end.
 
 Section A.
 Variable L : limits.
@@ -141,9 +175,10 @@ Proof.
   unfold check_argon2, with_layout, unmarshal_top. rewrite HP, ti_argon2. unfold TI_argon2.
   cbn [bind]. unfold body_tree.
   unfold recog_argon2_body. rewrite skipn_app_exact. cbv zeta.
-  pose proof (sc_rel body n) as HR.
+  pose proof (sc_rel body n) as HR. pose proof (rel_length _ _ HR) as HL.
   destruct (sc [] n n body None) as [|[[p1 t1]|g1] [|[[p2 t2]|g2] [|[[p3 t3]|g3] [|[[p4 t4]|g4] [|f5 fr]]]]];
-    destruct (pieces dollar [] body) as [|q1 [|q2 [|q3 [|q4 [|q5 qs]]]]]; rel_facts HR; fv_piece.
+    destruct (pieces dollar [] body) as [|q1 [|q2 [|q3 [|q4 [|q5 qs]]]]];
+    cbn [length map] in HL; rewrite ?map_length in HL; try (exfalso; lia); clear HL; rel_facts HR; fv_piece.
   all: unfold unmarshal_tree; cbn [ti_prefix prefix ti_fields ti_numreq frags];
     rewrite (argon2_prefix_ok pre Hin); cbn [fi_embptr bind fi_index].
   all: try (rewrite rest_comma by (first [left; symmetry; assumption | right; symmetry; assumption])).
@@ -159,7 +194,9 @@ Proof.
                 rewrite (split_on_plain comma q (eq_sym H))
               end.
   all: cbv iota beta; rewrite ?if_none_none.
-  Time all: try match goal with |- _ = 2%nat => idtac "bad"; time (solve [crunchA; reflexivity]) end.
+  (* the two shapes the layout admits *)
+  all: match goal with |- context [map ufrag_of [FG _; FV _; FV _]] => idtac | _ => shelve end.
+  split_group.
   Show.
 Abort.
 End A.
